@@ -17,11 +17,12 @@ class File:
         self.codec = codec; self.binary = binary; self.encoding = encoding; self.chunks = []
 
 class Handle:
-    def __init__(self, f, writing, binary, encoding):
+    def __init__(self, f, writing, binary, encoding, translate=False):
         self.f = f; self.writing = writing; self.binary = binary; self.encoding = encoding
+        self.translate = translate        # text mode without newline="": universal newlines on reading
     def write(self, x): self.f.chunks.append(x); return 1
     def read(self):
-        return TextPayload(self.f.chunks) if not self.binary else list(self.f.chunks)
+        return TextPayload(self.f.chunks, self.translate) if not self.binary else list(self.f.chunks)
     def __enter__(self): return self
     def __exit__(self, *a): return False
     # file-like protocol bits used by the fake Arrow reader/writer
@@ -29,8 +30,17 @@ class Handle:
 
 class TextPayload(str):
     """text read from a stub file: carries the chunks it was made of"""
-    def __new__(cls, chunks):
-        s = str.__new__(cls, "<text payload>"); s.chunks = list(chunks); return s
+    def __new__(cls, chunks, translated=False):
+        s = str.__new__(cls, "<text payload>"); s.chunks = list(chunks)
+        s.translated = bool(translated) or any(getattr(c, "translated", False) for c in chunks)
+        return s
+
+def universal_newlines(v):
+    """a text value after universal-newline translation (CR and CR LF -> LF)"""
+    from . import symx
+    if isinstance(v, symx.SymStr): return symx.SymStr(v.c.universal_newlines())
+    if type(v) is str: return v.replace("\r\n", "\n").replace("\r", "\n")
+    return v
 
 class FS:
     def __init__(self):
@@ -48,12 +58,13 @@ class FS:
             if path not in self.files:
                 raise FileNotFoundError(2, "No such file or directory", path)
             f = self.files[path]
+            translate = not binary and kwargs.get("newline") is None
             self.log.append(("r", path, codec, binary, enc))
             if f.codec != codec:
                 raise OSError(f"file written with codec {f.codec!r} read with codec {codec!r}")
             if not binary and not f.binary and f.encoding != enc:
                 raise UnicodeDecodeError(enc or "utf-8", b"", 0, 1, f"file written as {f.encoding!r} read as {enc!r}")
-            return Handle(f, False, binary, enc)
+            return Handle(f, False, binary, enc, translate)
         return _open
 
 def codec_of(path):
@@ -122,6 +133,8 @@ def install(fs, W, util, df_mod, lod_mod):
         if blobs[0].opts["delimiter"] is not delimiter and blobs[0].opts["delimiter"] != delimiter:
             return iter([["<garbled by a different delimiter>"] for _ in w.rows])
         rows = ([list(w.keys)] if w.header else []) + [["" if v is None else v for v in r] for r in w.rows]
+        if getattr(f, "translate", False):
+            rows = [[universal_newlines(v) for v in r] for r in rows]
         return iter(rows)
     st.enter_context(stubs.patched(lod_mod, "csv", _Mod(DictWriter=DictWriter, reader=reader, QUOTE_MINIMAL=0)))
     # pyarrow
@@ -152,8 +165,9 @@ def install(fs, W, util, df_mod, lod_mod):
             chunks = f.chunks
         else:
             chunks = source.payload()
-        flat = []
+        flat = []; translated = False
         for c in chunks:
+            translated = translated or getattr(c, "translated", False)
             flat.extend(c.chunks if isinstance(c, TextPayload) else [c])
         blobs = [c for c in flat if isinstance(c, Blob)]
         if len(blobs) != 1 or blobs[0].kind != "arrowcsv": raise ValueError("CSV parse error")
@@ -166,6 +180,9 @@ def install(fs, W, util, df_mod, lod_mod):
         if bool(read_options.autogenerate_column_names) == bool(b.opts["header"]):
             raise ValueError("CSV header option used inconsistently")
         _, data, names = b.value
+        if translated:
+            # the CSV text went through a text-mode file object on its way (re-encoding): newlines inside values changed
+            data = [[universal_newlines(v) for v in col] for col in data]
         return _mk_table(W, data, names if b.opts["header"] else None, convert_options.include_columns)
     pacsv.write_csv = write_csv; pacsv.read_csv = read_csv
     def pq_write(table, path, **kw):
